@@ -93,7 +93,7 @@ TABLE['C09'] = {
 }
 
 TABLE['C03'] = {
-    'modules': ['contracts.graph', 'contracts.make', 'contracts.ninja', 'contracts.crossbackend', 'contracts.emitters', 'contracts.depfile'],
+    'modules': ['contracts.graph', 'contracts.make', 'contracts.ninja', 'contracts.crossbackend', 'contracts.emitters', 'contracts.depfile', 'contracts.scripts'],
     'level': 'proof',
     'assumptions': [
         'Makefile._target_str / NinjaFile._output_str are abstracted as an uninterpreted function from the thing to its escaped text (their injectivity up to the escape is C04)',
